@@ -505,8 +505,16 @@ func c17Work(ctx *core.Ctx, part string) {
 				chainProbes = append(chainProbes, fmt.Sprintf(`<%s style="%s">t</%s><span style="%s">u</span><my-x style="%s">v</my-x>`, el, gen.CanonEscape(o.Attrs[0]+": "+v), el, gen.CanonEscape(o.Attrs[0]+": "+v), gen.CanonEscape(o.Attrs[0]+": "+v)))
 			}
 		}
+		if cs.Index%12 == 5 {
+			// the zero value of Policy as the starting point, with scheme rules of every kind
+			ops[0] = spec.Op{K: spec.KZero}
+			ops = append(ops, spec.Op{K: spec.KSchemesMatching, Re: gen.Pick(r, []string{`^x-`, `^(ftp|sftp)$`, `^t`})}, spec.Op{K: spec.KAllowAttrs, Attrs: []string{"href", "src"}, Scope: "global"}, spec.Op{K: spec.KAllowElements, Names: []string{"a", "img"}})
+		}
 		envA := NewEnv(ops)
 		probes := append(c17Probes(r, envA, nProbe), chainProbes...)
+		for _, u := range []string{"ftp://example.org/x", "sftp://example.org/", "x-app:open", "tel:+15551234", "web+https://example.org/", "git+ssh://example.org/r", "http://example.org/", "https://example.org/?a=1", "mailto:a@example.org", "/rel", "//cdn.example.net/x", "data:image/png;base64,iVBORw0KGgo="} {
+			probes = append(probes, `<a href="`+u+`">l</a><img src="`+u+`">`)
+		}
 		want := make([]string, len(probes))
 		for i, p := range probes {
 			want[i] = envA.Pol.Sanitize(p)
